@@ -782,3 +782,103 @@ def r_forget_window(F, V):
     R.info["ManuallyDrop<table-owning value> sites"] = n
     R.inst("scan", "%d bodies scanned for table-owning values wrapped in ManuallyDrop" % len(F.bodies), "ok", n > 0)
     return R
+
+
+# --------------------------------------------------------------------- R-LOAD-FACTOR
+
+def _lt_const_arms(b):
+    """[(T, B, block)] for every `if x < T { B }` whose true arm assigns the constant B to a local"""
+    out = []
+    for i in b.normal:
+        t = b.term(i)
+        if t["k"] != "switch" or t["discr"]["k"] not in ("copy", "move"):
+            continue
+        d = b.single_def(t["discr"]["p"]["l"])
+        if not d or d[0] != "stmt" or d[3]["rv"]["k"] != "binop" or d[3]["rv"]["op"] != "Lt":
+            continue
+        c = d[3]["rv"]["b"]
+        if c["k"] != "const" or not isinstance(c.get("val"), int):
+            continue
+        zero = [x for v, x in t["targets"] if v == 0]
+        for x in b.nsucc[i]:
+            if x in zero:
+                continue
+            consts = [s["rv"]["op"]["val"] for s in b.blocks[x]["stmts"] if s["k"] == "assign" and s["rv"]["k"] == "use" and s["rv"]["op"]["k"] == "const"
+                      and isinstance(s["rv"]["op"].get("val"), int) and s["rv"]["op"].get("t") == "usize"]
+            out.append((int(c["val"]), consts[0] if consts else None, i, zero[0] if zero else None))
+    return out
+
+
+def r_load_factor(F, V):
+    """Constant relations of the load-factor arithmetic (no arithmetic is evaluated on run-time values): the capacity of a table
+    is strictly less than its bucket count (at least one EMPTY byte always ends a probe), and capacity_to_buckets is the
+    inverse of bucket_mask_to_capacity (the buckets chosen for n elements have capacity >= n)."""
+    R = Result("R-LOAD-FACTOR", F.cfg)
+    cb, tb = F.bodies.get("raw::bucket_mask_to_capacity"), F.bodies.get("raw::capacity_to_buckets")
+    if cb is None or tb is None:
+        R.undec("bucket_mask_to_capacity / capacity_to_buckets not found")
+        return R
+    anchor = cb
+    D = M = None
+    for i, k, s in cb.stmts():
+        if s["k"] == "assign" and s["rv"]["k"] == "binop":
+            op = s["rv"]["op"].replace("WithOverflow", "").replace("Unchecked", "")
+            c = s["rv"]["b"]
+            if op == "Div" and c["k"] == "const":
+                D = int(c["val"])
+            if op == "Mul" and c["k"] == "const":
+                M = int(c["val"])
+    small = _lt_const_arms(cb)
+    checks = []
+    n = 0
+    if D is None or M is None:
+        R.inst("bucket_mask_to_capacity|shape", "not of the form (mask + 1) / D * M: not judged", "exempt", False, where(cb))
+    else:
+        n += 1
+        checks.append(("bucket_mask_to_capacity: load factor M/D < 1", M < D, "M=%d D=%d" % (M, D), cb))
+        for T, B, blk, _ in small:
+            checks.append(("bucket_mask_to_capacity: the small-table arm (mask < T returns mask) ends where whole groups of D buckets begin", T <= D, "T=%d D=%d" % (T, D), cb))
+    # inverse constants
+    Dc = Mc = None
+    for i, t in tb.calls():
+        if (callee_path(t) or "").endswith("checked_mul") and len(t["args"]) > 1 and t["args"][1]["k"] == "const":
+            Dc = int(t["args"][1]["val"])
+    for i, k, s in tb.stmts():
+        if s["k"] == "assign" and s["rv"]["k"] == "binop" and s["rv"]["op"] == "Div" and s["rv"]["b"]["k"] == "const":
+            Mc = int(s["rv"]["b"]["val"])
+    if Dc is None or Mc is None:
+        R.inst("capacity_to_buckets|shape", "large arm not of the form cap.checked_mul(D)? / M: not judged", "exempt", False, where(tb))
+    elif D is not None:
+        n += 1
+        checks.append(("capacity_to_buckets inverts the load factor (cap * D / M with the same D, M)", Dc * M >= D * Mc and Dc > Mc, "cap*%d/%d vs buckets/%d*%d" % (Dc, Mc, D, M), tb))
+    # small arms of capacity_to_buckets: cap < T -> B buckets needs capacity(B) = B - 1 >= T - 1
+    arms = _lt_const_arms(tb)
+    outer = [a for a in arms if a[1] is None]
+    L = max([a[0] for a in outer], default=None)
+    inner = [a for a in arms if a[1] is not None]
+    Tsmall = small[0][0] if small else None
+
+    def cap_of(B):
+        if D is None or M is None or Tsmall is None:
+            return B - 1
+        return (B - 1) if (B - 1) < Tsmall else (B // D) * M
+    for T, B, blk, _ in inner:
+        n += 1
+        checks.append(("capacity_to_buckets: cap < %d gets %d buckets, whose capacity %d covers it" % (T, B, cap_of(B)), cap_of(B) >= T - 1, "T=%d B=%d" % (T, B), tb))
+    # the last small arm and the minimum capacities
+    lastB = None
+    allB = [s["rv"]["op"]["val"] for i, k, s in tb.stmts() if s["k"] == "assign" and s["rv"]["k"] == "use" and s["rv"]["op"]["k"] == "const"
+            and isinstance(s["rv"]["op"].get("val"), int) and s["rv"]["op"].get("t") == "usize"]
+    if inner and L is not None:
+        biggest = max(x for x in allB if x in (4, 8, 16, 32, 64)) if [x for x in allB if x in (4, 8, 16, 32, 64)] else None
+        if biggest is not None:
+            n += 1
+            checks.append(("capacity_to_buckets: the largest small-table size %d (capacity %d) covers every cap < %d handled by the small arm" % (biggest, cap_of(biggest), L), cap_of(biggest) >= L - 1, "L=%d" % L, tb))
+    for name, ok, detail, body in checks:
+        if ok:
+            R.inst(name, "%s (%s)" % (name, detail), "ok", True, where(body))
+        else:
+            R.violation("load-factor|" + name.split(":")[0] + "|" + detail.split(" ")[0], body, "load-factor constant relation violated: %s (%s): either a table can fill up completely (no EMPTY byte: a probe for an absent key "
+                        "never terminates) or the buckets chosen for n elements cannot hold n elements (reserve(n) / with_capacity(n) promise broken)" % (name, detail))
+    R.floor("load-factor relations judged", n, 4)
+    return R
